@@ -317,6 +317,89 @@ theorem discard_unit {b : Backend H} {df : AOF Bytes} (hc : CleanFixed b df) (op
   subst hpl hpf
   simp_all
 
+/-! ### nothing reaches the disk before `sync` (fixed- and variable-size data files) -/
+
+end Backend
+
+/-- the durable part of a data file: the file itself and, for variable-size elements, its size
+file -/
+def DFile.onDisk : DFile → List Bytes × List SizeEntry
+  | .fixed f => (f.disk, [])
+  | .var v => ([v.disk], v.sizeFile.disk)
+
+/-- everything of a backend that is on disk: hash file, data file (+ size file), leaf-set file,
+prune-list file -/
+def Backend.onDisk {H : Type} (b : Backend H) : List H × (List Bytes × List SizeEntry) × Bitmap × Bitmap :=
+  (b.hashFile.disk, b.dataFile.onDisk, b.leafSet.bak, b.pruneFile)
+
+theorem DFile.onDisk_append {d d' : DFile} {e : Bytes} {n : Nat} (h : d.append e = some (d', n)) :
+    d'.onDisk = d.onDisk := by
+  cases d with
+  | fixed f =>
+    simp only [DFile.append, Option.some.injEq, Prod.mk.injEq] at h
+    rw [← h.1]; rfl
+  | var v =>
+    simp only [DFile.append] at h
+    cases hv : VarFile.append v e with
+    | none => rw [hv] at h; exact absurd h (by simp)
+    | some v' =>
+      rw [hv] at h
+      simp only [Option.some.injEq, Prod.mk.injEq] at h
+      rw [← h.1]
+      unfold VarFile.append at hv
+      dsimp only at hv
+      split at hv
+      · exact absurd hv (by simp)
+      · simp only [Option.some.injEq] at hv
+        rw [← hv]; rfl
+
+theorem DFile.onDisk_rewind (d : DFile) (pos : Nat) : (d.rewind pos).onDisk = d.onDisk := by
+  cases d <;> rfl
+
+theorem DFile.onDisk_discard (d : DFile) : d.discard.onDisk = d.onDisk := by
+  cases d <;> rfl
+
+namespace Backend
+variable {H : Type}
+
+theorem onDisk_apply (b : Backend H) (op : Op H) : (op.apply b).onDisk = b.onDisk := by
+  cases op with
+  | append data hashes =>
+    simp only [Op.apply, Backend.append]
+    cases ha : b.dataFile.append data with
+    | none => rfl
+    | some r =>
+      obtain ⟨df, size⟩ := r
+      simp only [Option.getD_some]
+      unfold onDisk
+      simp only [DFile.onDisk_append ha]
+      rfl
+  | remove p => rfl
+  | rewind position rm =>
+    simp only [Op.apply, Backend.rewind]
+    unfold onDisk
+    simp only [DFile.onDisk_rewind]
+    rfl
+
+theorem onDisk_discard (b : Backend H) : b.discard.onDisk = b.onDisk := by
+  unfold onDisk discard
+  simp only [DFile.onDisk_discard]
+  rfl
+
+/-- **nothing is written before `sync`, and `discard` writes nothing**: after ANY sequence of
+`append` / `remove` / `rewind` (no protocol hypothesis; fixed-size and variable-size data files
+with their size file alike, however large the un-synced batch) the hash file, data file, size
+file, leaf-set file and prune-list file hold what they held before – and still do after
+`discard` -/
+theorem onDisk_unit (b : Backend H) (ops : List (Op H)) :
+    (ops.foldl Op.apply b).onDisk = b.onDisk ∧ (ops.foldl Op.apply b).discard.onDisk = b.onDisk := by
+  have h : ∀ (ops : List (Op H)) (b : Backend H), (ops.foldl Op.apply b).onDisk = b.onDisk := by
+    intro ops
+    induction ops with
+    | nil => intro b; rfl
+    | cons op ops ih => intro b; rw [List.foldl_cons, ih, onDisk_apply]
+  exact ⟨h ops b, by rw [onDisk_discard, h ops b]⟩
+
 /-- `sync` leaves a synced backend (fixed-size data file) -/
 theorem sync_clean {b : Backend H} {df : AOF Bytes} (hd : b.dataFile = .fixed df) :
     CleanFixed b.sync df.flush :=
